@@ -39,8 +39,9 @@ SOURCES = [
     "ALTCHAR 65\nSTRING f", "REM note\nALTSTRING abc", "STRING a\n  b\n      c", "", "PRINT p\nFUNC f\n    RUN f\nRUN f",
     "REPEAT 2\n    FOO\n    REM in\n    STRING r", "START lib\nSTRING after", "PRINT one\nSTART lib\nDELAY x", "VAR a 1\n$STRING a+1\nBAR 1 2",
     "IF TRUE\n IF TRUE\n  IF TRUE\n   IF TRUE\n    IF TRUE\n     IF TRUE\n      STRING deep",
+    "PRINT [/red] p\nSTRING out\n$STRING\n    1+1\n    [/quote] +", "START lib\nALT\n    a\n    [/x]bad",
 ]
-LIBS = ["STRING lib", "PRINT inlib\nSTRING lib\nFOO z", "PRINT inlib\nDELAY -5", "REM lib\nALTCHAR 66"]
+LIBS = ["STRING lib", "PRINT inlib\nSTRING lib\nFOO z", "PRINT inlib\nDELAY -5", "REM lib\nALTCHAR 66", "PRINT inlib\n$STRING\n    2\n    [/quote] +"]
 CFGS = [None, None, {}, {"include_comments": True}, {"stack_limit": 5}, {"flipper_commands": False}, {"use_project_config": False, "include_comments": True},
         {"supress_command_not_exist": True, "stack_limit": 30}, dict(zip(KEYS, (20, False, True, False, True))), dict(zip(KEYS, (7, True, False, True, True)))]
 GLOBALS = [None, None, dict(zip(KEYS, (20, False, True, False, True))), {"flipper_commands": False}, {"use_project_config": False},
